@@ -144,7 +144,57 @@ func (f *Frame) call(c *ssa.CallCommon, instr ssa.Value, st *State, reach string
 			if v, ok := f.sprintf(c, args, instr.Name()); ok {
 				return v
 			}
+		case "encoding/json.Marshal":
+			// json.Marshal of a map[string]string: a function of the map's contents (encoding/json writes the keys in
+			// sorted order, A-DEP); never fails for this type
+			if mi, isMI := c.Args[0].(*ssa.MakeInterface); isMI && len(args) == 1 {
+				args[0] = f.val(mi.X, st)
+			}
+			if len(args) == 1 && args[0].GoT != nil {
+				if mt, ok := args[0].GoT.Underlying().(*types.Map); ok && args[0].Term != "" {
+					ms := g.sorts.sortOf(mt)
+					if kv := g.sorts.mapKV[ms]; kv[0] == "Str" && kv[1] == "Str" {
+						h, _ := g.sorts.mapHeap(ms)
+						enc, _, _ := g.jsonMapFuncs()
+						out := g.def(f.name(instr), "Str", fmt.Sprintf("(%s (select %s %s))", enc, g.heapGet(st, h), args[0].Term))
+						return Val{Tuple: []Val{{Sort: "Str", Term: out}, {Sort: "Err", Term: "Err_nil"}}}
+					}
+				}
+			}
 		case "encoding/json.Unmarshal":
+			// into a map[string]string: the entries decoded from the data are added to the map
+			if len(args) == 2 && args[1].Ptr != nil && args[0].Sort == "Str" {
+				var el types.Type
+				if args[1].Ptr.Cell != nil && len(args[1].Ptr.Path) == 0 {
+					el = args[1].Ptr.Cell.goT
+				}
+				if el != nil {
+					if mt, ok := el.Underlying().(*types.Map); ok {
+						ms := g.sorts.sortOf(mt)
+						if kv := g.sorts.mapKV[ms]; kv[0] == "Str" && kv[1] == "Str" {
+							cur := g.load(st, args[1].Ptr, el)
+							h, mv := g.sorts.mapHeap(ms)
+							_, dec, okf := g.jsonMapFuncs()
+							errv := g.fresh(f.name(instr), "Err")
+							g.assume(fmt.Sprintf("(= (= %s Err_nil) (%s %s))", errv, okf, args[0].Term))
+							old := fmt.Sprintf("(select %s %s)", g.heapGet(st, h), cur.Term)
+							empty := fmt.Sprintf("(mk_%s ((as const (Array Str Bool)) false) ((as const (Array Str Str)) %s) 0)", mv, strLit(""))
+							merged := g.fresh(f.name(instr)+"_merged", mv)
+							// decoding into an empty map yields exactly the decoded entries; otherwise the result is some merge
+							if g.freshMaps[cur.Term] {
+								g.assume(fmt.Sprintf("(= %s (%s %s))", merged, dec, args[0].Term)) // the map was made just before and never written
+								delete(g.freshMaps, cur.Term)
+							} else {
+								g.assume(fmt.Sprintf("(=> (= %s %s) (= %s (%s %s)))", old, empty, merged, dec, args[0].Term))
+							}
+							junk := g.fresh(f.name(instr)+"_partial", mv)
+							g.heapSet(st, h, fmt.Sprintf("(store %s %s (ite (= %s Err_nil) %s %s))", g.heapGet(st, h), cur.Term, errv, merged, junk))
+							g.trusted["encoding/json on map[string]string (jmap_enc/jmap_dec: decoding inverts encoding; a function of the contents)"] = true
+							return Val{Sort: "Err", Term: errv, GoT: resT}
+						}
+					}
+				}
+			}
 			// json.Unmarshal(data, &x) with x a local: x becomes a function of data when decoding succeeds
 			// (json_ok_S / json_dec_S uninterpreted, A-DEP); on failure x is unconstrained.
 			if len(args) == 2 && args[1].Ptr != nil && args[0].Sort == "Str" {
@@ -949,17 +999,7 @@ func (f *Frame) codecCall(c *ssa.CallCommon, args []Val, instr ssa.Value, st *St
 		}
 		return lv, lv.Sort, true
 	}
-	declare := func(srt string) {
-		g.useTheory("kv")
-		m := "marshal_" + mangle(srt)
-		if _, ok := g.ufDecl[m]; ok {
-			return
-		}
-		g.uf(m, []string{srt}, "Str")
-		g.uf("un"+m, []string{"Str"}, srt)
-		g.emit(fmt.Sprintf("(assert (forall ((x %s)) (! (and (= (un%s (%s x)) x) (not (= (%s x) Bytes_nil))) :pattern ((%s x)))))", srt, m, m, m, m))
-		g.assumes["A-CODEC: protobuf Marshal is injective per message type and Unmarshal inverts it (uninterpreted encoding)"] = true
-	}
+	declare := func(srt string) { g.declareCodec(srt) }
 	switch name {
 	case "MustMarshal", "Marshal", "MustMarshalLengthPrefixed":
 		v, srt, ok := structOf(args[1])
@@ -1114,4 +1154,33 @@ func (f *Frame) applyIterates(ct *Contract, fn *ssa.Function, args []Val, resT t
 		return Val{}
 	}
 	return g.freshVal(f.prefix+rname, resT, st)
+}
+
+// jsonMapFuncs declares the JSON model of map[string]string: jmap_enc (contents -> text), jmap_dec (text -> contents),
+// jmap_ok (text parses). Decoding inverts encoding (A-DEP: encoding/json).
+func (g *Gen) jsonMapFuncs() (enc, dec, ok string) {
+	mv := "MapVal_Str_Str"
+	if _, done := g.ufDecl["jmap_enc"]; !done {
+		g.uf("jmap_enc", []string{mv}, "Str")
+		g.uf("jmap_dec", []string{"Str"}, mv)
+		g.uf("jmap_ok", []string{"Str"}, "Bool")
+		g.emit(fmt.Sprintf("(assert (forall ((m %s)) (! (and (jmap_ok (jmap_enc m)) (= (jmap_dec (jmap_enc m)) m)) :pattern ((jmap_enc m)))))", mv))
+	}
+	return "jmap_enc", "jmap_dec", "jmap_ok"
+}
+
+// declareCodec declares the protobuf model of a message sort: marshal_S / unmarshal_S, uninterpreted, decoding inverts
+// encoding, encodings are never the nil slice (A-CODEC). The function symbols are declared ahead of the theory text
+// (theory modules may mention them), the axiom with the function body.
+func (g *Gen) declareCodec(srt string) {
+	g.useTheory("kv")
+	m := "marshal_" + mangle(srt)
+	if _, ok := g.ufDecl[m]; ok {
+		return
+	}
+	g.ufDecl[m] = "pre"
+	g.ufDecl["un"+m] = "pre"
+	g.preTheory = append(g.preTheory, fmt.Sprintf("(declare-fun %s (%s) Str)", m, srt), fmt.Sprintf("(declare-fun un%s (Str) %s)", m, srt))
+	g.emit(fmt.Sprintf("(assert (forall ((x %s)) (! (and (= (un%s (%s x)) x) (not (= (%s x) Bytes_nil))) :pattern ((%s x)))))", srt, m, m, m, m))
+	g.assumes["A-CODEC: protobuf Marshal is injective per message type and Unmarshal inverts it (uninterpreted encoding)"] = true
 }
